@@ -468,7 +468,7 @@ fn run_inner(ctx: &mut Ctx) -> Report {
     for g in [vec![0xffu8; 8], vec![1, 0, 0, 0, 0, 0, 0, 0], vec![0u8; 9], vec![], vec![0x12, 0x34, 0x56, 0x78, 0x9a, 0xbc, 0xde]] {
         garbage_case(ctx, &mut rep, seekmax, &g);
     }
-    let n_arch = ctx.t(25, 300);
+    let n_arch = ctx.t(25, 150);
     for idx in 0..n_arch {
         let ops = gen_archive_ops(ctx.seed, idx);
         let Some(ac) = build(ctx, &mut rep, &ops, &idx.to_string()) else { continue };
@@ -493,7 +493,7 @@ fn run_inner(ctx: &mut Ctx) -> Report {
     }
     // real archives written by the compressor: every strict prefix through Archive::open (vs model)
     // and Decompressor::open
-    let n_real = ctx.t(4, 40);
+    let n_real = ctx.t(4, 20);
     for idx in 0..n_real {
         if let Some(ac) = build_real(ctx, &mut rep, ctx.seed, idx) {
             rep.count("real_archives");
